@@ -165,7 +165,7 @@ fn random_ops(rng: &mut Rng, len: usize) -> Vec<Op> {
 
 pub fn run(ctx: &Ctx) {
     let mut out = Out::new(ctx, "");
-    let mut emit = |out: &mut Out, case: Sx| {
+    let emit = |out: &mut Out, case: Sx| {
         let (imp, nt) = exec(&case);
         out.case(&case, &imp, nt);
     };
